@@ -211,6 +211,21 @@ def run_case(prop, case, acc, keep_sample=True):
 _KNOWN = {}
 
 
+def fuzz_stage(prop, acc, module, seed, runs, jobs=8, **kw):
+    """Thorough tier: an atheris / libFuzzer campaign whose target uses prop.check as its oracle.  Failing inputs
+    come back as replay cases and are re-checked in this process (so they are bucketed, attributed and shrunk like
+    any other failure).  If atheris cannot be installed the stage is reported as skipped."""
+    from .fuzz import common
+    scale = float(os.environ.get("VERIF_SCALE", "1"))
+    st = common.run(module, seed, int(runs * scale), jobs, **kw)
+    for case in st.pop("replays", []):
+        run_case(prop, case["case"], acc, keep_sample=False)
+    acc.evals += st.get("executions", 0)
+    acc.extra["fuzz"] = st
+    if st.get("job_errors"):
+        acc.harness_errors.append(("fuzz job failed: %r" % (st["job_errors"][:2],), ""))
+
+
 def load_prop(pid):
     mod = importlib.import_module("pbt.props." + pid.lower())
     return mod.PROP
